@@ -152,7 +152,7 @@ theorem C04_cache_once (c : Case) (L : Layout) (n : Node) (hg : L.hres = .gen n)
     (insts : List Inst) :
     (n.facts.cacheOn = true → ∀ i, computes i ops (runOps c L insts ops) ≤ 1) ∧
     (Fresh c L n insts → ops.any isSetOp = false →
-      (∀ op ∈ ops, isCopyOp op = true → L.uniform ≠ some true → L.hasSlot = false) →
+      (∀ op ∈ ops, isCopyOp op = true → L.copyMode ≠ .state → L.hasSlot = false) →
       ∀ p ∈ ops.zip (runOps c L insts ops), isHashOp p.1 = true → p.2.out = .ok → p.2.sameUncached = true) := by
   constructor
   · intro hc i
@@ -161,6 +161,23 @@ theorem C04_cache_once (c : Case) (L : Layout) (n : Node) (hg : L.hres = .gen n)
   · intro hf hns hcp p hp hh ho
     have := runOps_uncached c L n hg ops insts hf hns hcp p hp
     simpa [stale, hh, ho] using this
+
+/-- **C04_state_clone_rearmed**: a clone made through the generated `__getstate__`/`__setstate__` pair of a
+    caching class (slotted or dict, copy / deepcopy / pickle alike) starts with a readable, empty cache —
+    its first `hash` computes, whatever the original's cache held — and a clone of a dict instance made by
+    the default protocol never holds a cache the original did not hold. -/
+theorem C04_state_clone_rearmed (L : Layout) (deep : Bool) (x : Inst) :
+    (L.copyMode = .state → L.stateReset = true → readCell L (copyInst L deep x) = .empty) ∧
+    (L.copyMode = .dict → L.hasSlot = false → ∀ h, readCell L (copyInst L deep x) = .full h →
+      readCell L x = .full h) := by
+  constructor
+  · intro hm hr
+    simp [copyInst, hm, hr, readCell_writeCell]
+  · intro hm hs h hh
+    simp only [copyInst, hm, readCell, hs, Bool.false_eq_true, if_false] at hh ⊢
+    cases deep
+    · simpa using hh
+    · cases hd : x.dict <;> simp_all
 
 /-- freshly constructed instances satisfy the freshness invariant -/
 theorem C04_new_instances_fresh (c : Case) (L : Layout) (n : Node) (vals : List (List Nat)) :
@@ -177,11 +194,11 @@ theorem C04_never_raises (c : Case) (n : Node)
     (h1 : k1 (layoutOf (nodesWith codeOutcome c)) = false)
     (h2 : k2 (layoutOf (nodesWith codeOutcome c)) = false)
     (hw : wfOps c (layoutOf (nodesWith codeOutcome c)).nFields
-            (layoutOf (nodesWith codeOutcome c)).uniform.isSome c.insts.length [] c.ops = true) :
+            ((layoutOf (nodesWith codeOutcome c)).copyMode != .unsupported) c.insts.length [] c.ops = true) :
     ∀ p ∈ c.ops.zip (runOps c (layoutOf (nodesWith codeOutcome c))
           (c.insts.map (newInst (layoutOf (nodesWith codeOutcome c)))) c.ops),
       isHashOp p.1 = true → p.2.out = .ok := by
-  apply runOps_never_raises c _ n hg h1 h2 (layoutOf_ok codeOutcome c n hg) c.ops _ []
+  apply runOps_never_raises c _ n hg h1 h2 (layoutOf_ok codeOutcome c n) c.ops _ []
   · intro hc x hx
     simp only [List.mem_map] at hx
     obtain ⟨v, _, rfl⟩ := hx
@@ -242,27 +259,25 @@ theorem C04_K5_needs_write (c : Case) (hwf : wf c = true) (h5 : "K5" ∈ known c
     generalize hL : layoutOf (nodesWith codeOutcome c) = L at *
     have hne : c.ops ≠ [] := by
       intro h; simp [hasHashOp, h] at hbh
-    have hwo : wfOps c L.nFields L.uniform.isSome c.insts.length [] c.ops = true := by
+    have hwo : wfOps c L.nFields (L.copyMode != .unsupported) c.insts.length [] c.ops = true := by
       rcases hinst with hu | hu
       · simp only [usesInstances, Bool.or_eq_false_iff, Bool.not_eq_false', List.isEmpty_iff] at hu
         exact absurd hu.2 hne
-      · exact hu.2
+      · exact wfOps_mono c _ _ _ (by intro h; simp only [Bool.and_eq_true] at h; exact h.1) c.ops _ _ hu.2
     unfold k5 at hk5
     cases hh : L.hres with
     | gen n =>
       simp only [hh] at hk5
-      have hok : LayoutOk L n := by rw [← hL] at hh ⊢; exact layoutOf_ok codeOutcome c n hh
+      have hok : LayoutOk L n := by rw [← hL] at hh ⊢; exact layoutOf_ok codeOutcome c n
       by_cases hs : c.ops.any isSetOp = true
       · exact hs
       · exfalso
         have hs' : c.ops.any isSetOp = false := by simpa using hs
-        have hcp : ∀ op ∈ c.ops, isCopyOp op = true → L.uniform ≠ some true → L.hasSlot = false := by
+        have hcp : ∀ op ∈ c.ops, isCopyOp op = true → L.copyMode ≠ .state → L.hasSlot = false := by
           intro op hop hc hnt
           have hu := wfOps_copy_uniform c _ _ c.ops _ _ hwo op hop hc
           apply hok.noSlotOfDict
-          cases hun : L.uniform with
-          | none => simp [hun] at hu
-          | some b => cases b <;> simp_all
+          cases hun : L.copyMode <;> simp_all
         have := runOps_uncached c L n hh c.ops _ (C04_new_instances_fresh c L n c.insts) hs' hcp
         rw [List.any_eq_true] at hk5
         obtain ⟨p, hp, hst⟩ := hk5
@@ -288,13 +303,18 @@ example : ∃ f g h : Facts, f.valid ∧ g.valid ∧ h.valid ∧ legacyRow f = f
   ⟨facts { cls0 with frozen := .t } false false, facts cls0 false false, facts { cls0 with eq := .f } false false,
    by decide⟩
 
-/-- **K1 and K2 are tight**: a well-formed case in one of the two shapes whose history hashes at all never
-    satisfies the specification — every case the two predicates suppress is one that really fails, and
-    every `hash` call in it fails (`C04_never_raises` covers exactly the complement). -/
+/-- **K1 and K2 are tight**: a case in the K1 shape whose history hashes at all, and a case in the K2
+    shape whose history hashes and makes no copy / deepcopy / pickle, never satisfies the specification —
+    every `hash` call in it fails (`C04_never_raises` covers the complement).  (A clone of a K2 instance made
+    through the generated `__setstate__` does get a readable cache: `__setstate__` stores it with
+    `object.__setattr__`, which reaches the slot.) -/
 theorem C04_known_shapes_fail (c : Case) (hcls : c.chain.all wfCls = true)
     (hb : built (nodesWith codeOutcome c) = true) (hh : hasHashOp c = true)
-    (hk : k1 (layoutOf (nodesWith codeOutcome c)) = true ∨ k2 (layoutOf (nodesWith codeOutcome c)) = true) :
+    (hk' : k1 (layoutOf (nodesWith codeOutcome c)) = true ∨
+      (k2 (layoutOf (nodesWith codeOutcome c)) = true ∧ c.ops.any isCopyOp = false)) :
     spec c (model c) = false := by
+  have hk : k1 (layoutOf (nodesWith codeOutcome c)) = true ∨ k2 (layoutOf (nodesWith codeOutcome c)) = true :=
+    hk'.imp id (·.1)
   have hnd := nodes_code_doc c hcls
   unfold spec
   simp only [← hnd]
@@ -320,14 +340,16 @@ theorem C04_known_shapes_fail (c : Case) (hcls : c.chain.all wfCls = true)
       | ident => simp [hh'] at hk
       | const => simp [hh'] at hk
       | unhashable => simp [hh'] at hk
-  have hu : (layoutOf (nodesWith codeOutcome c)).uniform = some true →
+  have hu : ∀ op ∈ c.ops, isCopyOp op = true →
+      (layoutOf (nodesWith codeOutcome c)).copyMode = .state →
       (layoutOf (nodesWith codeOutcome c)).stateReset = false := by
-    intro hun
-    rcases hk with hk | hk
+    intro op hop hcop _
+    rcases hk' with hk1 | hk2
     · have hr : (layoutOf (nodesWith codeOutcome c)).stateReset = (layoutOf (nodesWith codeOutcome c)).initCache := rfl
       rw [hr]
-      simpa [k1, hg, hc] using hk
-    · exact absurd hun (k2_not_uniform_slotted _ hk)
+      simpa [k1, hg, hc] using hk1
+    · have := List.any_eq_false.1 hk2.2 op hop
+      simp [hcop] at this
   generalize layoutOf (nodesWith codeOutcome c) = L at *
   apply specOps_false_of_raise c L n hg
   -- some operation is a hash call, and it does not succeed
@@ -344,7 +366,7 @@ theorem C04_known_shapes_fail (c : Case) (hcls : c.chain.all wfCls = true)
       rw [List.length_zip]; omega
     exact ⟨i, hz, by rw [List.getElem_zip]⟩
   refine ⟨_, hmem, hio, ?_⟩
-  refine runOps_known_shapes_raise c L n hg hc hk hu c.ops (c.insts.map (newInst L)) ?_ _ hmem hio
+  refine runOps_known_shapes_raise c L n hg hc hk c.ops (c.insts.map (newInst L)) ?_ hu _ hmem hio
   intro x hx
   simp only [List.mem_map] at hx
   obtain ⟨v, _, rfl⟩ := hx
@@ -373,12 +395,13 @@ theorem C04_model_meets_spec (c : Case) (hwf : wf c = true) (hk : known c = []) 
     simp only [hb, Bool.not_true, Bool.false_eq_true, if_false, Bool.and_eq_true]
     generalize hL : layoutOf (nodesWith codeOutcome c) = L at *
     -- well-formedness of the history (trivial when there is none)
-    have hwo : c.ops = [] ∨ wfOps c L.nFields L.uniform.isSome c.insts.length [] c.ops = true := by
+    have hwo : c.ops = [] ∨ wfOps c L.nFields (L.copyMode != .unsupported) c.insts.length [] c.ops = true := by
       rcases hinst with hu | hu
       · left
         simp only [usesInstances, Bool.or_eq_false_iff, Bool.not_eq_false', List.isEmpty_iff] at hu
         exact hu.2
-      · right; exact hu.2
+      · right
+        exact wfOps_mono c _ _ _ (by intro h; simp only [Bool.and_eq_true] at h; exact h.1) c.ops _ _ hu.2
     rw [hres]
     constructor
     · rcases hwo with hnil | hwo
@@ -389,7 +412,7 @@ theorem C04_model_meets_spec (c : Case) (hwf : wf c = true) (hk : known c = []) 
           · have hkn := known_nil c hk hb hho
             rw [hL] at hkn
             obtain ⟨h1, h2, h5⟩ := hkn
-            have hok : LayoutOk L n := by rw [← hL] at hh ⊢; exact layoutOf_ok codeOutcome c n hh
+            have hok : LayoutOk L n := by rw [← hL] at hh ⊢; exact layoutOf_ok codeOutcome c n
             apply specOps_run_gen c L n hh h1 h2 hok c.ops _ []
             · intro hc x hx
               simp only [List.mem_map] at hx
